@@ -533,6 +533,7 @@ def ga_builtin(it, obj, name, args, kw):
         return GA(obj.cls, d, d.n, dict(obj.meta))
     if name == "keep_columns":
         d = DF({c: obj.data.cols[c] for c in args[0] if c in obj.data.cols}, obj.data.n, obj.data.index)
+        d.exact, d.labels = getattr(obj.data, "exact", False), getattr(obj.data, "labels", None)
         return GA(obj.cls, d, d.n, dict(obj.meta))
     if name == "sort_columns":
         req = list(it.attribute(obj, "_required_columns"))
